@@ -655,6 +655,8 @@ func init() {
 			ruleSuiteAdmission(c, w, tb)
 			ruleAdmissionThroughEntries(c, w, tb)
 			ruleHistoryIndependence(c, w, tb, NewEffects(tb), "R14.4", w.Funcs(OtpPath, "GenerateOCRA", "ValidateOCRA", "NewSuite", "NewRawSuite", "OCRAInput.Validate", "SuiteConfig.Validate")...)
+			// the REST entry: both OCRA endpoints hand the five hex fields to the library unchanged, so admission is the library's
+			checkRESTEndpoints(c, w, tb, NewEffects(tb), "R14.REST", "/ocra/generate", "/ocra/validate")
 			c.Floor("R14.1", 1)
 			c.Floor("R14.2", 4)
 			c.Floor("R14.3", 8)
